@@ -6,12 +6,13 @@
   1. the slab discipline (Model/Slab.lean) is the code's: the source text of grow / release / Bind is the text the
      model was written from; in the model a requisitioned row is the zero row after ANY history, and Bind forgets
      every history;
-  2. the table of every field of every struct with a Reset method - is it assigned by Reset at top level, under a
-     condition, or not at all; is it assigned at every yield site - is the AUDITED table below.  Each field that
-     neither Reset nor every yield site assigns is listed with the reason why reading it is still independent of
-     the instance's past.  A new field nobody resets, a reset that was dropped or moved under a condition, a slab
-     that recycles rows, a Bind that keeps its stack: each changes the generated table and breaks an obligation
+  2. in the table of every field of every struct with a Reset method - is it assigned by Reset at top level, under a
+     condition, or not at all; is it assigned at every yield site - every field is written for every use (Reset at
+     top level, or every yield site) or is one of the AUDITED carried fields below, each listed with the reason why
+     reading it is still independent of the instance's past.  A new field nobody resets, a reset that was dropped
+     or moved under a condition, a slab that recycles rows, a Bind that keeps its stack: each breaks an obligation
      here, and the reuse histories of the correspondence check (stream hist) then look for a failing history.
+     (A new field that IS reset, a reset added to a carried field, renamed locals: no obligation breaks.)
 -/
 import RefmtModel.Model.Slab
 import RefmtModel.Gen.Machines
@@ -90,118 +91,6 @@ def carried : List (String × String) := [
   ("obj.unmarshalMachineUnionKeyed.tmp_rv", "written by Step when it consumes the member name (a fresh value per member), read only after that")
 ]
 
-/-- the table as audited -/
-def auditedFields : List (String × String × String) := [
-  ("cbor.Decoder.cfg", "-", "-"),
-  ("cbor.Decoder.left", "R", "-"),
-  ("cbor.Decoder.phase", "R", "-"),
-  ("cbor.Decoder.r", "-", "-"),
-  ("cbor.Decoder.stack", "R", "-"),
-  ("cbor.Encoder.current", "R", "-"),
-  ("cbor.Encoder.spareBytes", "-", "-"),
-  ("cbor.Encoder.stack", "R", "-"),
-  ("cbor.Encoder.w", "-", "-"),
-  ("json.Decoder.frame", "R", "-"),
-  ("json.Decoder.r", "-", "-"),
-  ("json.Decoder.stack", "R", "-"),
-  ("json.Encoder.cfg", "-", "-"),
-  ("json.Encoder.current", "R", "-"),
-  ("json.Encoder.scratch", "-", "-"),
-  ("json.Encoder.some", "R", "-"),
-  ("json.Encoder.stack", "R", "-"),
-  ("json.Encoder.wr", "R", "-"),
-  ("obj.errThunkMarshalMachine.err", "-", "Y"),
-  ("obj.errThunkUnmarshalMachine.err", "-", "Y"),
-  ("obj.marshalMachineArrayWildcard.index", "R", "-"),
-  ("obj.marshalMachineArrayWildcard.length", "R", "-"),
-  ("obj.marshalMachineArrayWildcard.target_rv", "R", "-"),
-  ("obj.marshalMachineArrayWildcard.valueMach", "R", "-"),
-  ("obj.marshalMachineArrayWildcard.value_rt", "R", "-"),
-  ("obj.marshalMachineMapWildcard.index", "R", "-"),
-  ("obj.marshalMachineMapWildcard.keyStringer", "r", "-"),
-  ("obj.marshalMachineMapWildcard.keys", "R", "-"),
-  ("obj.marshalMachineMapWildcard.morphism", "-", "Y"),
-  ("obj.marshalMachineMapWildcard.target_rv", "R", "-"),
-  ("obj.marshalMachineMapWildcard.value", "-", "-"),
-  ("obj.marshalMachineMapWildcard.valueMach", "R", "-"),
-  ("obj.marshalMachineMapWildcard.value_rt", "R", "-"),
-  ("obj.marshalMachinePrimitive.kind", "-", "Y"),
-  ("obj.marshalMachinePrimitive.rv", "R", "-"),
-  ("obj.marshalMachineStructAtlas.cfg", "-", "Y"),
-  ("obj.marshalMachineStructAtlas.index", "R", "-"),
-  ("obj.marshalMachineStructAtlas.target_rv", "R", "-"),
-  ("obj.marshalMachineStructAtlas.value_rv", "R", "-"),
-  ("obj.marshalMachineTransform.delegate", "-", "Y"),
-  ("obj.marshalMachineTransform.first", "R", "-"),
-  ("obj.marshalMachineTransform.tag", "-", "Y"),
-  ("obj.marshalMachineTransform.tagged", "-", "Y"),
-  ("obj.marshalMachineTransform.trFunc", "-", "Y"),
-  ("obj.marshalMachineUnionKeyed.cfg", "-", "Y"),
-  ("obj.marshalMachineUnionKeyed.delegate", "R", "-"),
-  ("obj.marshalMachineUnionKeyed.elementName", "R", "-"),
-  ("obj.marshalMachineUnionKeyed.step", "R", "-"),
-  ("obj.marshalMachineUnionKeyed.target_rv", "R", "-"),
-  ("obj.marshalMachineWildcard.delegate", "R", "-"),
-  ("obj.ptrDerefDelegateMarshalMachine.MarshalMachine", "-", "Y"),
-  ("obj.ptrDerefDelegateMarshalMachine.isNil", "R", "Y"),
-  ("obj.ptrDerefDelegateMarshalMachine.peelCount", "-", "Y"),
-  ("obj.ptrDerefDelegateUnmarshalMachine.UnmarshalMachine", "-", "Y"),
-  ("obj.ptrDerefDelegateUnmarshalMachine.firstStep", "R", "-"),
-  ("obj.ptrDerefDelegateUnmarshalMachine.peelCount", "-", "Y"),
-  ("obj.ptrDerefDelegateUnmarshalMachine.ptr_rv", "R", "-"),
-  ("obj.unmarshalMachineArrayWildcard.index", "R", "-"),
-  ("obj.unmarshalMachineArrayWildcard.maxLen", "R", "-"),
-  ("obj.unmarshalMachineArrayWildcard.phase", "R", "-"),
-  ("obj.unmarshalMachineArrayWildcard.target_rv", "R", "-"),
-  ("obj.unmarshalMachineArrayWildcard.valueMach", "R", "-"),
-  ("obj.unmarshalMachineArrayWildcard.value_rt", "R", "-"),
-  ("obj.unmarshalMachineMapStringWildcard.keyDestringer", "R", "-"),
-  ("obj.unmarshalMachineMapStringWildcard.key_rv", "R", "-"),
-  ("obj.unmarshalMachineMapStringWildcard.phase", "R", "-"),
-  ("obj.unmarshalMachineMapStringWildcard.target_rv", "R", "-"),
-  ("obj.unmarshalMachineMapStringWildcard.tmp_rv", "R", "-"),
-  ("obj.unmarshalMachineMapStringWildcard.valueMach", "R", "-"),
-  ("obj.unmarshalMachineMapStringWildcard.valueZero_rv", "R", "-"),
-  ("obj.unmarshalMachineMapStringWildcard.value_rt", "R", "-"),
-  ("obj.unmarshalMachinePrimitive.kind", "-", "Y"),
-  ("obj.unmarshalMachinePrimitive.rv", "R", "-"),
-  ("obj.unmarshalMachineSliceWildcard.index", "R", "-"),
-  ("obj.unmarshalMachineSliceWildcard.phase", "R", "-"),
-  ("obj.unmarshalMachineSliceWildcard.target_rv", "R", "-"),
-  ("obj.unmarshalMachineSliceWildcard.valueMach", "R", "-"),
-  ("obj.unmarshalMachineSliceWildcard.valueZero_rv", "R", "-"),
-  ("obj.unmarshalMachineSliceWildcard.value_rt", "R", "-"),
-  ("obj.unmarshalMachineSliceWildcard.working_rv", "R", "-"),
-  ("obj.unmarshalMachineStructAtlas.cfg", "-", "Y"),
-  ("obj.unmarshalMachineStructAtlas.expectLen", "-", "-"),
-  ("obj.unmarshalMachineStructAtlas.fieldEntry", "-", "-"),
-  ("obj.unmarshalMachineStructAtlas.index", "R", "-"),
-  ("obj.unmarshalMachineStructAtlas.rv", "R", "-"),
-  ("obj.unmarshalMachineStructAtlas.value", "R", "-"),
-  ("obj.unmarshalMachineTransform.delegate", "-", "Y"),
-  ("obj.unmarshalMachineTransform.recv_rt", "-", "Y"),
-  ("obj.unmarshalMachineTransform.recv_rv", "R", "-"),
-  ("obj.unmarshalMachineTransform.target_rv", "R", "-"),
-  ("obj.unmarshalMachineTransform.trFunc", "-", "Y"),
-  ("obj.unmarshalMachineUnionKeyed.cfg", "-", "Y"),
-  ("obj.unmarshalMachineUnionKeyed.delegate", "-", "-"),
-  ("obj.unmarshalMachineUnionKeyed.phase", "R", "-"),
-  ("obj.unmarshalMachineUnionKeyed.target_rt", "R", "-"),
-  ("obj.unmarshalMachineUnionKeyed.target_rv", "R", "-"),
-  ("obj.unmarshalMachineUnionKeyed.tmp_rv", "-", "-"),
-  ("obj.unmarshalMachineWildcard.delegate", "R", "-"),
-  ("obj.unmarshalMachineWildcard.holder_rv", "R", "-"),
-  ("obj.unmarshalMachineWildcard.target_rt", "R", "-"),
-  ("obj.unmarshalMachineWildcard.target_rv", "R", "-"),
-  ("pretty.Encoder.current", "R", "-"),
-  ("pretty.Encoder.scratch", "-", "-"),
-  ("pretty.Encoder.stack", "R", "-"),
-  ("pretty.Encoder.wr", "-", "-")
-]
-
-/-- the regenerated table is the audited one -/
-theorem machine_fields_as_audited : Gen.machineFields = auditedFields := by decide
-
 /-- is the field written for every use: by Reset at top level, or at every yield site -/
 def writtenPerUse (e : String × String × String) : Bool := e.2.1 == "R" || e.2.2 == "Y"
 
@@ -220,9 +109,5 @@ theorem every_field_accounted : ∀ e ∈ Gen.machineFields, writtenPerUse e = t
   have := h e he
   simp only [Bool.or_eq_true, List.contains_iff_mem] at this
   exact this
-
-/-- the carried list is exact: it names no field that is written per use (nothing is excused needlessly) -/
-theorem carried_exact : (carried.map (·.1)).all (fun n => Gen.machineFields.any fun e => e.1 == n && !writtenPerUse e) = true := by
-  decide +kernel
 
 end Refmt.C17Machines
